@@ -113,6 +113,21 @@ def draw_state(ch, seed):
             "ushape": ushape}
 
 
+def _mislabel(b):
+    """A well-formed hash item of the state query, labelled with another hash's code (an answer that
+    got out of step): anything but a state hash answer is left alone."""
+    b = bytes(b)
+    if len(b) >= 4 and b[1] == 0x20 and b[2] == 0x01 and 1 <= b[3] <= 0x84:
+        other = {0x01: 0x02, 0x02: 0x03, 0x03: 0x05, 0x05: 0x01, 0x81: 0x82, 0x82: 0x84, 0x84: 0x81}
+        code = other.get(b[3], 0x01)
+        value = _mislabel.dev.state[L.STATE_SELECTORS[code]] if _mislabel.dev is not None else b[4:]
+        return b[:3] + bytes([code]) + value          # the item the device holds for that other code
+    return b
+
+
+_mislabel.dev = None
+
+
 def run_one(ch, cfg):
     seed = ch.bytes(6, "devseed")
     S = draw_state(ch, seed)
@@ -161,6 +176,7 @@ def run_one(ch, cfg):
         return None
     w = World(ch, device_cfg=dcfg, seed=seed, fault_fn=fault_fn)
     dev = w.device
+    _mislabel.dev = dev
     w.bring_up()
     viol = []
     answered = 0
@@ -183,7 +199,7 @@ def run_one(ch, cfg):
             arm["at"] = w.link.index + ch.draw(10, "link-fault.at")
             arm["kind"] = ["timeout_after", "timeout_before", "read_err_after", "read_err_before",
                            "write_err", ("sw", 0x6B11), ("sw", 0x6A8F), ("sw", 0x6B87),
-                           ("sw", 0x6E00)][ch.draw(9, "link-fault.kind")]
+                           ("sw", 0x6E00), ("alter", _mislabel)][ch.draw(10, "link-fault.kind")]
             if isinstance(arm["kind"], tuple) and arm["kind"][1] == 0x6E00 and \
                     obj.get("command") in ("getPubKey",):
                 arm["kind"] = ("sw", 0x6A8F)     # (a status outside the device's range ends the manager
